@@ -1,2 +1,58 @@
-(* Props/C12.v — placeholder, theorems added in a later commit *)
-From NIR Require Import Model.Graph.
+(* Props/C12.v — Graph-level interface always mirrors its Input and Output nodes. *)
+From NIR Require Import Model.Serial Proofs.MirrorClosedProofs.
+
+(* graph.inputs / graph.outputs are exactly the Input / Output children *)
+Theorem c12_inputs : forall ch, inputs ch = filter (fun p => is_input (snd p)) ch.
+Proof. exact inputs_are_input_children. Qed.
+Theorem c12_outputs : forall ch, outputs ch = filter (fun p => is_output (snd p)) ch.
+Proof. exact outputs_are_output_children. Qed.
+
+(* the graph-level types map exactly those children's names to those children's CURRENT types *)
+Theorem c12_input_type : forall ch,
+  graph_tin ch = match inputs ch with [] => None
+                 | l => Some (map (fun p => (fst p, node_tin (snd p))) l) end.
+Proof. exact graph_tin_spec. Qed.
+Theorem c12_output_type : forall ch,
+  graph_tout ch = Some (map (fun p => (fst p, node_tout (snd p))) (outputs ch)).
+Proof. exact graph_tout_spec. Qed.
+
+(* after construction *)
+Theorem c12_after_construction : forall ch es m, mirrors (mk_graph ch es m).
+Proof. exact mk_graph_mirrors. Qed.
+
+(* after infer_types — also when it raises part-way — at every nesting depth *)
+Theorem c12_after_infer : forall g g' oc, infer_types g = (g', oc) -> mirrors_deep g -> mirrors_deep g'.
+Proof. exact infer_types_mirrors_deep. Qed.
+
+(* after from_list, from_dict and read *)
+Theorem c12_after_from_list : forall ns g, Forall mirrors_deep ns -> from_list ns = Ok g -> mirrors_deep g.
+Proof. exact from_list_mirrors_deep. Qed.
+Theorem c12_after_from_dict : forall d g, from_dict d = Ok g -> mirrors_deep g.
+Proof. exact from_dict_mirrors_deep'. Qed.
+Theorem c12_after_read : forall t g, read t = Ok g -> mirrors_deep g.
+Proof. exact read_mirrors_deep. Qed.
+
+(* at every point of a graph's life: any sequence of {infer_types, to_dict+from_dict, write+read} *)
+Theorem c12_invariant : forall ops g g', mirrors_deep g -> apply_ops ops g = Ok g' -> mirrors_deep g'.
+Proof. exact ops_mirror. Qed.
+
+(* non-vacuity: two Inputs (non-alphabetical names, different shapes) and an Output *)
+Example c12_example :
+  let i1 := Leaf KInput [] (Some [("input", TArr [5])]) (Some [("output", TArr [5])]) in
+  let i2 := Leaf KInput [] (Some [("input", TArr [2; 3])]) (Some [("output", TArr [2; 3])]) in
+  let o := Leaf KOutput [] (Some [("input", TArr [5])]) (Some [("output", TArr [5])]) in
+  mirrors (mk_graph [("zeta", i1); ("alpha", i2); ("out", o)] [("zeta", "out")] (VDict [])) /\
+  graph_tin [("zeta", i1); ("alpha", i2); ("out", o)] =
+    Some [("zeta", Some [("input", TArr [5])]); ("alpha", Some [("input", TArr [2; 3])])].
+Proof. split; [apply mk_graph_mirrors|reflexivity]. Qed.
+
+Print Assumptions c12_inputs.
+Print Assumptions c12_outputs.
+Print Assumptions c12_input_type.
+Print Assumptions c12_output_type.
+Print Assumptions c12_after_construction.
+Print Assumptions c12_after_infer.
+Print Assumptions c12_after_from_list.
+Print Assumptions c12_after_from_dict.
+Print Assumptions c12_after_read.
+Print Assumptions c12_invariant.
